@@ -12,7 +12,7 @@
      prc_at v x                  PathResCoeff::calc_res_val of the segment of v that contains x *)
 From Coq Require Import Reals List Bool ZArith Lra.
 From AltModel Require Import Num SpeedPoints PathGeom.
-From AltProofs Require Import NumR SpeedPointsP PathGeomP GeomExactP.
+From AltProofs Require Import NumR SpeedPointsP PathGeomP GeomExactP PathClearWitness.
 Import ListNotations.
 Open Scope R_scope.
 
@@ -113,3 +113,12 @@ Proof. exact ex_elev. Qed.
 Theorem C06_clear_keeps_counts : forall (F : Type) (NO : NumOps F) (p p' : Path (F:=F)) x del,
   counts_ok p = true -> clear p x = Ok (p', del) -> counts_ok p' = true.
 Proof. intros F NO. exact (@clear_counts_ok F NO). Qed.
+
+(* known finding C06/2 shown of the faithful model: a reachable, index-consistent path and an offset inside it on which
+   clear does not return but panics (speed-point scan past the stored points); proofs/PathClearWitness.v, input =
+   harness case clear/26 on which the real PathTpc::clear panics with "index out of bounds" *)
+Theorem C06_clear_total_refuted :
+  exists p, extend_many PathClearWitness.cw_net (new_path PathClearWitness.cw_tp) PathClearWitness.cw_paths = Ok p /\
+            counts_ok p = true /\ PathClearWitness.offset_inside p PathClearWitness.cw_x = true /\
+            clear p PathClearWitness.cw_x = Panic 1504.
+Proof. exact PathClearWitness.clear_panics_witness. Qed.
